@@ -12,6 +12,7 @@ import Verif.Gen.SubtypeRules
 import Verif.Proofs.SubStruct
 import Verif.Proofs.SubAgree2
 import Verif.Proofs.SubTrans4
+import Verif.Proofs.SubCoh
 namespace Verif.Properties.C08
 open Verif.Model.Types Verif.Model.Auth
 
@@ -176,6 +177,17 @@ theorem trans_kindstable_partial (D : List Iface) (hD : Coh D) (a b c : Ty)
   rw [struct_agree a c ha.wf hc.wf n3 h3]
   exact trans_struct_partial D hD a b c ha hb hc hsta hstc hab hbc
 
+/-- The same with the *executable* hypothesis checks the `types` driver evaluates on every `trans`
+    operation (declarations printed from the real checker's types: `cohB`; the three types: `goodB`;
+    kind-stability): operations tagged `thm` by the driver are exactly those this theorem speaks about. -/
+theorem trans_checked_partial (D : List Iface) (a b c : Ty)
+    (hD : cohB D = true) (ha : goodB D a = true) (hb : goodB D b = true) (hc : goodB D c = true)
+    (hsta : kindStable a = true) (hstc : stab false c = true)
+    (hab : subtypeWith R a b = true) (hbc : subtypeWith R b c = true) : subtypeWith R a c = true :=
+  trans_kindstable_partial D (Verif.Proofs.SubCoh.coh_of_cohB D hD) a b c
+    (Verif.Proofs.SubCoh.good_of_b D a ha) (Verif.Proofs.SubCoh.good_of_b D b hb) (Verif.Proofs.SubCoh.good_of_b D c hc)
+    hsta hstc _ _ _ (Nat.le_refl _) (Nat.le_refl _) (Nat.le_refl _) hab hbc
+
 /-- **Known finding, contravariant form**: the same failure with the container of `Never` in a function
     parameter of the *super-most* type: `fun(&AnyResource) <: fun(&[AnyResource]) <: fun(&[Never])` but not
     `fun(&AnyResource) <: fun(&[Never])`. -/
@@ -204,6 +216,7 @@ example : Good exD exA ∧ Good exD exB ∧ Good exD exC :=
    ⟨by decide, by decide, by simp [exB, exD, nomOK], by simp [exB, authOK]⟩,
    ⟨by decide, by decide, by simp [exC, exD, nomOK], by simp [exC, authOK]⟩⟩
 example : kindStable exA = true ∧ stab false exC = true := by decide
+example : cohB exD = true ∧ goodB exD exA = true ∧ goodB exD exB = true ∧ goodB exD exC = true := by decide
 example : isSub R (fuelFor exA exB) exA exB = true ∧ isSub R (fuelFor exB exC) exB exC = true := by decide
 end
 example : kindStable (.ref unauthorized (.varArr never)) = false := by decide
